@@ -1,3 +1,565 @@
+/-
+  C14 helper lemmas for `single_source_shortest_path_length`: closed form of the relaxation loop, `min_where`
+  and the arg-min scan, the loop invariant of the array Dijkstra with unit increments, the counting argument
+  for the doubly decremented `n_unseen`, and the fuel bound.
+-/
 import XgiModel.C14.Lemmas
+
 namespace Xgi.C14
+open Xgi
+
+/-! ### `distLt` -/
+
+@[simp] theorem distLt_none_right (a : Nat) : distLt (some a) none = true := rfl
+@[simp] theorem distLt_none_left (b : Option Nat) : distLt none b = false := by cases b <;> rfl
+@[simp] theorem distLt_some (a b : Nat) : distLt (some a) (some b) = decide (a < b) := rfl
+
+/-! ### the relaxation loop in closed form -/
+
+theorem relaxOne_get (unseen : PyId → Bool) (cur : PyId) (d : DTab) (a : PyId) (m : Nat)
+    (hc : d.get cur = some m) (y : PyId) :
+    (relaxOne unseen cur d a).get y =
+      if y = a ∧ unseen a = true ∧ distLt (some (m + 1)) (d.get a) = true then some (m + 1) else d.get y := by
+  unfold relaxOne
+  simp only [hc, Option.map_some]
+  by_cases hu : unseen a = true
+  · by_cases hl : distLt (some (m + 1)) (d.get a) = true
+    · simp only [hu, hl, if_true, upd_apply, and_true]
+    · simp [hu, hl]
+  · simp [hu]
+
+theorem relax_fold (unseen : PyId → Bool) (cur : PyId) (m : Nat) :
+    ∀ (l : List PyId) (d : DTab), cur ∉ l → d.get cur = some m → ∀ x,
+      (l.foldl (relaxOne unseen cur) d).get x =
+        if x ∈ l ∧ unseen x = true ∧ distLt (some (m + 1)) (d.get x) = true then some (m + 1) else d.get x := by
+  intro l
+  induction l with
+  | nil => intro d _ _ x; simp
+  | cons a t ih =>
+    intro d hcur hc x
+    simp only [List.mem_cons, not_or] at hcur
+    have hne : cur ≠ a := hcur.1
+    have h1 : ∀ y, (relaxOne unseen cur d a).get y =
+        if y = a ∧ unseen a = true ∧ distLt (some (m + 1)) (d.get a) = true then some (m + 1) else d.get y :=
+      relaxOne_get unseen cur d a m hc
+    have hc1 : (relaxOne unseen cur d a).get cur = some m := by
+      rw [h1 cur]; simp [hne, hc]
+    simp only [List.foldl_cons]
+    rw [ih _ hcur.2 hc1 x, h1 x]
+    by_cases hxa : x = a
+    · subst hxa
+      by_cases hu : unseen x = true <;> by_cases hl : distLt (some (m + 1)) (d.get x) = true <;>
+        simp [hu, hl]
+    · simp [hxa]
+
+theorem not_mem_nbrs_self (h : Net) (v : PyId) : v ∉ nbrs h v := by
+  rw [mem_nbrs]; exact fun a => a.1 rfl
+
+theorem relax_get (h : Net) (st : SP) (m : Nat) (hc : st.dist.get st.current = some m) (x : PyId) :
+    (relax h st).get x =
+      if x ∈ nbrs h st.current ∧ st.unseen x = true ∧ distLt (some (m + 1)) (st.dist.get x) = true
+      then some (m + 1) else st.dist.get x := by
+  unfold relax
+  exact relax_fold st.unseen st.current m _ _ (not_mem_nbrs_self h _) hc x
+
+/-! ### `min_where` and the arg-min scan -/
+
+/-- the scan of step 6, both components -/
+def scan (keys : List PyId) (d : PyId → Option Nat) (w : PyId → Bool) (init : Option Nat × PyId) : Option Nat × PyId :=
+  keys.foldl (fun (acc : Option Nat × PyId) k =>
+    if w k then (if distLt (d k) acc.1 then (d k, k) else acc) else acc) init
+
+theorem argMin_eq_scan (keys : List PyId) (d : PyId → Option Nat) (w : PyId → Bool) (cur : PyId) :
+    argMin keys d w cur = (scan keys d w (none, cur)).2 := rfl
+
+theorem minWhere_eq_scan (keys : List PyId) (d : PyId → Option Nat) (w : PyId → Bool) (cur : PyId) :
+    minWhere keys d w = (scan keys d w (none, cur)).1 := by
+  unfold minWhere scan
+  suffices hgen : ∀ (l : List PyId) (m : Option Nat) (c : PyId),
+      l.foldl (fun m k => if w k then (if distLt (d k) m then d k else m) else m) m =
+      (l.foldl (fun (acc : Option Nat × PyId) k =>
+        if w k then (if distLt (d k) acc.1 then (d k, k) else acc) else acc) (m, c)).1 from hgen keys none cur
+  intro l
+  induction l with
+  | nil => intro m c; rfl
+  | cons a t ih =>
+    intro m c
+    simp only [List.foldl_cons]
+    by_cases hw : w a = true
+    · by_cases hl : distLt (d a) m = true
+      · simp only [hw, hl, if_true]; exact ih _ _
+      · simp only [hw, hl, if_true]; exact ih _ _
+    · simp only [hw]; exact ih _ _
+
+/-- invariant of the scan after the keys `pre` -/
+structure ScanInv (d : PyId → Option Nat) (w : PyId → Bool) (cur : PyId) (pre : List PyId)
+    (acc : Option Nat × PyId) : Prop where
+  noneCase : acc.1 = none → acc.2 = cur ∧ ∀ x ∈ pre, w x = true → d x = none
+  someCase : ∀ m, acc.1 = some m → acc.2 ∈ pre ∧ w acc.2 = true ∧ d acc.2 = some m ∧
+    ∀ x ∈ pre, w x = true → ∀ k, d x = some k → m ≤ k
+
+theorem scanInv_foldl (d : PyId → Option Nat) (w : PyId → Bool) (cur : PyId) :
+    ∀ (l pre : List PyId) (acc : Option Nat × PyId), ScanInv d w cur pre acc →
+      ScanInv d w cur (pre ++ l) (scan l d w acc) := by
+  intro l
+  induction l with
+  | nil => intro pre acc inv; simpa [scan] using inv
+  | cons a t ih =>
+    intro pre acc inv
+    have key : ScanInv d w cur (pre ++ [a])
+        (if w a then (if distLt (d a) acc.1 then (d a, a) else acc) else acc) := by
+      obtain ⟨hn, hs⟩ := inv
+      by_cases hw : w a = true
+      · simp only [hw, if_true]
+        cases hda : d a with
+        | none =>
+          simp only [distLt_none_left]
+          refine ⟨fun e => ⟨(hn e).1, ?_⟩, fun m e => ?_⟩
+          · intro x hx hwx; simp at hx; rcases hx with hx | hx
+            · exact (hn e).2 x hx hwx
+            · subst hx; exact hda
+          · obtain ⟨h1, h2, h3, h4⟩ := hs m e
+            refine ⟨by simp [h1], h2, h3, ?_⟩
+            intro x hx hwx k hk; simp at hx; rcases hx with hx | hx
+            · exact h4 x hx hwx k hk
+            · subst hx; rw [hda] at hk; cases hk
+        | some da =>
+          cases hb : acc.1 with
+          | none =>
+            simp only [distLt_none_right, if_true]
+            refine ⟨fun e => (by simp at e), fun m e => ?_⟩
+            simp only [Option.some.injEq] at e; subst e
+            refine ⟨by simp, hw, hda, ?_⟩
+            intro x hx hwx k hk; simp at hx; rcases hx with hx | hx
+            · have := (hn hb).2 x hx hwx; rw [this] at hk; cases hk
+            · subst hx; rw [hda] at hk; cases hk; exact Nat.le_refl _
+          | some b =>
+            obtain ⟨h1, h2, h3, h4⟩ := hs b hb
+            simp only [distLt_some]
+            by_cases hlt : da < b
+            · simp only [hlt, decide_true, if_true]
+              refine ⟨fun e => (by simp at e), fun m e => ?_⟩
+              simp only [Option.some.injEq] at e; subst e
+              refine ⟨by simp, hw, hda, ?_⟩
+              intro x hx hwx k hk; simp at hx; rcases hx with hx | hx
+              · have := h4 x hx hwx k hk; omega
+              · subst hx; rw [hda] at hk; cases hk; exact Nat.le_refl _
+            · simp only [hlt, decide_false, Bool.false_eq_true, if_false]
+              refine ⟨fun e => (by rw [hb] at e; cases e), fun m e => ?_⟩
+              rw [hb] at e; simp only [Option.some.injEq] at e; subst e
+              refine ⟨by simp [h1], h2, h3, ?_⟩
+              intro x hx hwx k hk; simp at hx; rcases hx with hx | hx
+              · exact h4 x hx hwx k hk
+              · subst hx; rw [hda] at hk; cases hk; omega
+      · simp only [hw]
+        refine ⟨fun e => ⟨(hn e).1, ?_⟩, fun m e => ?_⟩
+        · intro x hx hwx; simp at hx; rcases hx with hx | hx
+          · exact (hn e).2 x hx hwx
+          · subst hx; exact absurd hwx hw
+        · obtain ⟨h1, h2, h3, h4⟩ := hs m e
+          refine ⟨by simp [h1], h2, h3, ?_⟩
+          intro x hx hwx k hk; simp at hx; rcases hx with hx | hx
+          · exact h4 x hx hwx k hk
+          · subst hx; exact absurd hwx hw
+    have := ih (pre ++ [a]) _ key
+    simpa [scan] using this
+
+theorem scan_spec (keys : List PyId) (d : PyId → Option Nat) (w : PyId → Bool) (cur : PyId) :
+    ScanInv d w cur keys (scan keys d w (none, cur)) := by
+  have := scanInv_foldl d w cur keys [] (none, cur) ⟨fun _ => ⟨rfl, by simp⟩, fun m e => by simp at e⟩
+  simpa using this
+
+/-! ### counting -/
+
+theorem filter_erase_count {l : List PyId} (hn : l.Nodup) (p : PyId → Bool) {a : PyId} (ha : a ∈ l) (hp : p a = true) :
+    (l.filter (fun x => p x && x != a)).length + 1 = (l.filter p).length := by
+  induction l with
+  | nil => simp at ha
+  | cons b t ih =>
+    rw [List.nodup_cons] at hn
+    simp only [List.mem_cons] at ha
+    by_cases hba : b = a
+    · subst hba
+      have hnot : ∀ x ∈ t, (p x && x != b) = p x := by
+        intro x hx
+        have : x ≠ b := fun e => hn.1 (e ▸ hx)
+        simp [this]
+      rw [List.filter_cons, List.filter_cons]
+      simp only [hp, bne_self_eq_false, Bool.and_false, Bool.false_eq_true, if_false, if_true, List.length_cons]
+      rw [List.filter_congr hnot]
+    · have hat : a ∈ t := by rcases ha with ha | ha; exact absurd ha.symm hba; exact ha
+      have := ih hn.2 hat
+      rw [List.filter_cons, List.filter_cons]
+      have hb : (b != a) = true := by simp [hba]
+      by_cases hpb : p b = true
+      · simp only [hpb, hb, Bool.and_self, if_true, List.length_cons]; omega
+      · simp only [hpb, Bool.false_and, Bool.false_eq_true, if_false]; exact this
+
+theorem filter_length_one_unique {l : List PyId} (p : PyId → Bool) (hlen : (l.filter p).length = 1)
+    {a b : PyId} (ha : a ∈ l) (hpa : p a = true) (hb : b ∈ l) (hpb : p b = true) : a = b := by
+  have ha' : a ∈ l.filter p := List.mem_filter.2 ⟨ha, hpa⟩
+  have hb' : b ∈ l.filter p := List.mem_filter.2 ⟨hb, hpb⟩
+  match hf : l.filter p, hlen with
+  | [c], _ =>
+    rw [hf] at ha' hb'
+    simp at ha' hb'
+    rw [ha', hb']
+
+/-! ### the Dijkstra invariant (unit increments make it a BFS) -/
+
+/-- facts after an iteration has marked its current node: `u` = still unvisited, `c` = distance of the node
+    just processed -/
+structure PF (h : Net) (src : PyId) (d : PyId → Option Nat) (u : PyId → Bool) (c : Nat) : Prop where
+  inNodes : ∀ x k, d x = some k → x ∈ h.nodes
+  src0 : d src = some 0
+  zero : ∀ x, d x = some 0 → x = src
+  done : ∀ x, u x = false → ∃ k, d x = some k ∧ k ≤ c
+  front : ∀ x k, u x = true → d x = some k → c ≤ k ∧ k ≤ c + 1
+  relaxed : ∀ p v kp, u p = false → Adj h p v → d p = some kp → ∃ k, d v = some k ∧ k ≤ kp + 1
+  parent : ∀ x k, d x = some (k + 1) → ∃ p, u p = false ∧ Adj h p x ∧ d p = some k
+
+/-- the unvisited set at the loop head, with the current node counted in (it is not for the source) -/
+def headU (st : SP) : PyId → Bool := fun x => st.unseen x || x == st.current
+
+/-- number of unvisited nodes other than the current one: the value `n_unseen` really holds -/
+def restCount (h : Net) (st : SP) : Nat := (h.nodes.filter (fun x => st.unseen x && x != st.current)).length
+
+/-- loop-head invariant: `c` = distance of the previously processed node, `m` = distance of the current one -/
+structure HI (h : Net) (src : PyId) (st : SP) (c m : Nat) : Prop where
+  pf : PF h src st.dist.get (headU st) c
+  cur : st.dist.get st.current = some m
+  minimal : ∀ x ∈ h.nodes, headU st x = true → ∀ k, st.dist.get x = some k → m ≤ k
+  count : st.nUnseen = (restCount h st : Int)
+
+/-- what is claimed of the returned table -/
+structure SPFinal (h : Net) (src : PyId) (d : PyId → Option Nat) : Prop where
+  src0 : d src = some 0
+  zero : ∀ x, d x = some 0 → x = src
+  lipschitz : ∀ a v ka, Adj h a v → d a = some ka → ∃ k, d v = some k ∧ k ≤ ka + 1
+  parent : ∀ x k, d x = some (k + 1) → ∃ p, Adj h p x ∧ d p = some k
+
+theorem HI.curNode {h : Net} {src : PyId} {st : SP} {c m : Nat} (hi : HI h src st c m) : st.current ∈ h.nodes :=
+  hi.pf.inNodes _ _ hi.cur
+
+theorem HI.c_le_m {h : Net} {src : PyId} {st : SP} {c m : Nat} (hi : HI h src st c m) : c ≤ m :=
+  (hi.pf.front st.current m (by simp [headU]) hi.cur).1
+
+/-- one pass of the loop body up to the marking of the current node -/
+theorem HI.afterMark {h : Net} (wf : h.WF) {src : PyId} {st : SP} {c m : Nat} (hi : HI h src st c m) :
+    PF h src (relax h st).get (upd st.unseen st.current false) m := by
+  have hcm := hi.c_le_m
+  obtain ⟨⟨pin, psrc, pzero, pdone, pfront, prelax, pparent⟩, hcur, hmin, _⟩ := hi
+  have rg := relax_get h st m hcur
+  -- a finite entry is never overwritten
+  have keep : ∀ x k, st.dist.get x = some k → (relax h st).get x = some k := by
+    intro x k hk
+    rw [rg x, hk]
+    by_cases hu : st.unseen x = true
+    · have := (pfront x k (by simp [headU, hu]) hk).2
+      have hlt : ¬ (m + 1 < k) := by omega
+      simp [hlt]
+    · simp [hu]
+  -- a new finite entry is `m + 1`, written at an unvisited neighbour of the current node that had none
+  have fresh : ∀ x k, (relax h st).get x = some k → st.dist.get x = some k ∨
+      (st.dist.get x = none ∧ k = m + 1 ∧ x ∈ nbrs h st.current ∧ st.unseen x = true) := by
+    intro x k hk
+    rw [rg x] at hk
+    by_cases hcond : x ∈ nbrs h st.current ∧ st.unseen x = true ∧ distLt (some (m + 1)) (st.dist.get x) = true
+    · rw [if_pos hcond] at hk
+      cases hd : st.dist.get x with
+      | none => simp only [Option.some.injEq] at hk; exact .inr ⟨rfl, hk.symm, hcond.1, hcond.2.1⟩
+      | some k' =>
+        have := (pfront x k' (by simp [headU, hcond.2.1]) hd).2
+        have h3 := hcond.2.2
+        rw [hd] at h3; simp at h3; omega
+    · rw [if_neg hcond] at hk; exact .inl hk
+  have umark : ∀ x, upd st.unseen st.current false x = false ↔ x = st.current ∨ headU st x = false := by
+    intro x
+    by_cases hx : x = st.current
+    · simp [hx]
+    · simp [headU, hx]
+  have umark' : ∀ x, upd st.unseen st.current false x = true ↔ x ≠ st.current ∧ st.unseen x = true := by
+    intro x
+    by_cases hx : x = st.current
+    · simp [hx]
+    · simp [hx]
+  refine ⟨?_, ?_, ?_, ?_, ?_, ?_, ?_⟩
+  · intro x k hk
+    rcases fresh x k hk with hd | ⟨_, _, hnb, _⟩
+    · exact pin x k hd
+    · exact (mem_nbrs.1 hnb).right_mem wf
+  · exact keep _ _ psrc
+  · intro x hk
+    rcases fresh x 0 hk with hd | ⟨_, e, _, _⟩
+    · exact pzero x hd
+    · omega
+  · intro x hx
+    rcases (umark x).1 hx with e | hu
+    · subst e; exact ⟨m, keep _ _ hcur, Nat.le_refl _⟩
+    · obtain ⟨k, hk, hle⟩ := pdone x hu
+      exact ⟨k, keep _ _ hk, by omega⟩
+  · intro x k hx hk
+    obtain ⟨hne, hu⟩ := (umark' x).1 hx
+    rcases fresh x k hk with hd | ⟨_, e, _, _⟩
+    · have hxn := pin x k hd
+      have h1 := hmin x hxn (by simp [headU, hu]) k hd
+      have h2 := (pfront x k (by simp [headU, hu]) hd).2
+      omega
+    · omega
+  · intro p v kp hp a hkp
+    rcases (umark p).1 hp with e | hu
+    · subst e
+      have hkpm : kp = m := by
+        have := keep _ _ hcur; rw [this] at hkp; simp at hkp; exact hkp.symm
+      subst hkpm
+      have hvn : v ∈ nbrs h st.current := mem_nbrs.2 a
+      by_cases huv : st.unseen v = true
+      · cases hd : st.dist.get v with
+        | none =>
+          refine ⟨kp + 1, ?_, Nat.le_refl _⟩
+          rw [rg v, hd]; simp [hvn, huv]
+        | some k =>
+          have := (pfront v k (by simp [headU, huv]) hd).2
+          exact ⟨k, keep _ _ hd, by omega⟩
+      · have hvc : v ≠ st.current := fun e => a.1 e.symm
+        have : headU st v = false := by simp [headU, huv, hvc]
+        obtain ⟨k, hk, hle⟩ := pdone v this
+        exact ⟨k, keep _ _ hk, by omega⟩
+    · obtain ⟨kp', hkp', _⟩ := pdone p hu
+      have : kp' = kp := by have := keep _ _ hkp'; rw [this] at hkp; simpa using hkp
+      subst this
+      obtain ⟨k, hk, hle⟩ := prelax p v kp' hu a hkp'
+      exact ⟨k, keep _ _ hk, hle⟩
+  · intro x k hk
+    rcases fresh x (k + 1) hk with hd | ⟨_, e, hnb, _⟩
+    · obtain ⟨p, hp, a, hdp⟩ := pparent x k hd
+      exact ⟨p, (umark p).2 (.inr hp), a, keep _ _ hdp⟩
+    · have : k = m := by omega
+      subst this
+      exact ⟨st.current, (umark _).2 (.inl rfl), mem_nbrs.1 hnb, keep _ _ hcur⟩
+
+/-- the table is final once no unvisited node is finite, or exactly one unvisited node is left -/
+theorem PF.final {h : Net} (wf : h.WF) {src : PyId} {d : PyId → Option Nat} {u : PyId → Bool} {c : Nat}
+    (pf : PF h src d u c)
+    (hstop : (∀ x ∈ h.nodes, u x = true → d x = none) ∨ (h.nodes.filter u).length = 1) :
+    SPFinal h src d := by
+  obtain ⟨pin, psrc, pzero, pdone, pfront, prelax, pparent⟩ := pf
+  refine ⟨psrc, pzero, ?_, ?_⟩
+  · intro a v ka adj hka
+    by_cases hua : u a = false
+    · exact prelax a v ka hua adj hka
+    · have hua : u a = true := by simpa using hua
+      have han := pin a ka hka
+      rcases hstop with hnone | hone
+      · have := hnone a han hua; rw [this] at hka; cases hka
+      · have hvn : v ∈ h.nodes := adj.right_mem wf
+        have huv : u v = false := by
+          cases hv : u v with
+          | false => rfl
+          | true => exact absurd (filter_length_one_unique u hone han hua hvn hv) adj.1
+        obtain ⟨k, hk, hle⟩ := pdone v huv
+        have := (pfront a ka hua hka).1
+        exact ⟨k, hk, by omega⟩
+  · intro x k hk
+    obtain ⟨p, _, a, hp⟩ := pparent x k hk
+    exact ⟨p, a, hp⟩
+
+theorem filter_upd_eq (h : Net) (st : SP) :
+    h.nodes.filter (upd st.unseen st.current false) = h.nodes.filter (fun x => st.unseen x && x != st.current) := by
+  apply List.filter_congr
+  intro x _
+  by_cases hx : x = st.current <;> simp [hx]
+
+/-- the loop stops within `restCount + 1` iterations and returns a final table -/
+theorem spLoop_final {h : Net} (wf : h.WF) {src : PyId} :
+    ∀ (fuel : Nat) (st : SP) (c m : Nat), HI h src st c m → restCount h st + 1 ≤ fuel →
+      ∃ st', spLoop h fuel st = some st' ∧ SPFinal h src st'.dist.get := by
+  intro fuel
+  induction fuel with
+  | zero => intro st c m _ hf; omega
+  | succ fuel ih =>
+    intro st c m hi hf
+    have pf := hi.afterMark wf
+    have hcount := hi.count
+    unfold spLoop
+    simp only []
+    generalize hd : relax h st = d at pf
+    generalize hu : upd st.unseen st.current false = u at pf
+    have hfilt : (h.nodes.filter u).length = restCount h st := by
+      unfold restCount; rw [← hu, filter_upd_eq]
+    have hscan := scan_spec h.nodes d.get u st.current
+    rw [minWhere_eq_scan h.nodes d.get u st.current, argMin_eq_scan]
+    by_cases hstop : (st.nUnseen - 1 == 0 || (scan h.nodes d.get u (none, st.current)).1.isNone) = true
+    · rw [if_pos hstop]
+      refine ⟨_, rfl, ?_⟩
+      simp only []
+      apply pf.final wf
+      simp only [Bool.or_eq_true, beq_iff_eq, Option.isNone_iff_eq_none] at hstop
+      rcases hstop with h0 | hnone
+      · right; rw [hfilt]; omega
+      · left; exact (hscan.noneCase hnone).2
+    · rw [if_neg hstop]
+      simp only [Bool.or_eq_true, beq_iff_eq, Option.isNone_iff_eq_none, not_or] at hstop
+      obtain ⟨hn0, hsome⟩ := hstop
+      obtain ⟨m', hm'⟩ := Option.ne_none_iff_exists'.1 hsome
+      obtain ⟨hmem, hw, hdm, hminimal⟩ := hscan.someCase m' hm'
+      generalize hcur' : (scan h.nodes d.get u (none, st.current)).2 = cur' at hmem hw hdm
+      -- the new current node is unvisited, hence different from the old one
+      have hne : cur' ≠ st.current := by
+        intro e; rw [e, ← hu] at hw; simp at hw
+      have hpos : 1 ≤ restCount h st := by
+        rw [← hfilt]
+        exact List.length_pos_of_mem (List.mem_filter.2 ⟨hmem, hw⟩)
+      have hUeq : ∀ x, (u x || x == cur') = u x := by
+        intro x
+        by_cases hx : x = cur'
+        · subst hx; simp [hw]
+        · simp [hx]
+      have hrest : restCount h ⟨d, u, st.nUnseen - 1, cur'⟩ + 1 = restCount h st := by
+        have hh := filter_erase_count wf.1 u hmem hw
+        rw [hfilt] at hh
+        exact hh
+      apply ih ⟨d, u, st.nUnseen - 1, cur'⟩ m m'
+      · refine ⟨?_, hdm, ?_, ?_⟩
+        · have : headU ⟨d, u, st.nUnseen - 1, cur'⟩ = u := by funext x; exact hUeq x
+          rw [this]; exact pf
+        · intro x hx hux k hk
+          have : headU ⟨d, u, st.nUnseen - 1, cur'⟩ x = u x := hUeq x
+          rw [this] at hux
+          exact hminimal x hx hux k hk
+        · simp only []
+          omega
+      · omega
+
+/-! ### the initial state -/
+
+theorem hi_init {h : Net} (wf : h.WF) {src : PyId} (hs : src ∈ h.nodes) : HI h src (spInit h src) 0 0 := by
+  have hU : ∀ x, headU (spInit h src) x = true := by
+    intro x; by_cases hx : x = src <;> simp [headU, spInit, hx]
+  refine ⟨⟨?_, ?_, ?_, ?_, ?_, ?_, ?_⟩, ?_, ?_, ?_⟩
+  · intro x k hk
+    by_cases hx : x = src
+    · subst hx; exact hs
+    · simp [spInit, hx] at hk
+  · simp [spInit]
+  · intro x hk
+    by_cases hx : x = src
+    · exact hx
+    · simp [spInit, hx] at hk
+  · intro x hx; rw [hU x] at hx; cases hx
+  · intro x k _ hk
+    by_cases hx : x = src
+    · simp [spInit, hx] at hk; omega
+    · simp [spInit, hx] at hk
+  · intro p v kp hp; rw [hU p] at hp; cases hp
+  · intro x k hk
+    by_cases hx : x = src
+    · simp [spInit, hx] at hk
+    · simp [spInit, hx] at hk
+  · simp [spInit]
+  · intro x _ _ k _; exact Nat.zero_le _
+  · have hc := filter_erase_count wf.1 (fun _ => true) hs rfl
+    have h1 : (h.nodes.filter (fun _ => true)).length = h.nodes.length := by
+      rw [List.filter_eq_self.2 (fun _ _ => rfl)]
+    have h2 : restCount h (spInit h src) = (h.nodes.filter (fun x => true && x != src)).length := by
+      unfold restCount spInit
+      simp only []
+      congr 1
+      apply List.filter_congr
+      intro x _; simp
+    have h3 : (spInit h src).nUnseen = (h.nodes.length : Int) - 1 := rfl
+    rw [h3, h2]; omega
+
+theorem restCount_le (h : Net) (st : SP) : restCount h st ≤ h.nodes.length := List.length_filter_le _ _
+
+theorem sssp_ok {h : Net} (wf : h.WF) {src : PyId} (hs : src ∈ h.nodes) :
+    ∃ d, sssp h src = .ok d ∧ SPFinal h src d := by
+  unfold sssp
+  simp only [hs, if_true]
+  obtain ⟨st', e, fin⟩ := spLoop_final wf (h.nodes.length + 1) (spInit h src) 0 0 (hi_init wf hs)
+    (by have := restCount_le h (spInit h src); omega)
+  rw [e]
+  exact ⟨_, rfl, fin⟩
+
+/-! ### walks and distance -/
+
+/-- a walk of length `k` in the clique expansion -/
+inductive Walk (h : Net) : PyId → PyId → Nat → Prop where
+  | refl (u : PyId) : Walk h u u 0
+  | tail {u v w : PyId} {k : Nat} : Walk h u v k → Adj h v w → Walk h u w (k + 1)
+
+/-- `k` is the graph distance from `u` to `v` -/
+def IsDist (h : Net) (u v : PyId) (k : Nat) : Prop := Walk h u v k ∧ ∀ j, Walk h u v j → k ≤ j
+
+theorem Walk.head {h : Net} {u v w : PyId} {k : Nat} (a : Adj h u v) (p : Walk h v w k) : Walk h u w (k + 1) := by
+  induction p with
+  | refl => exact .tail (.refl _) a
+  | tail _ b ih => exact .tail ih b
+
+theorem Walk.symm {h : Net} {u v : PyId} {k : Nat} (p : Walk h u v k) : Walk h v u k := by
+  induction p with
+  | refl => exact .refl _
+  | tail _ b ih => exact Walk.head b.symm ih
+
+theorem reach_iff_walk {h : Net} {u v : PyId} : Reach h u v ↔ ∃ k, Walk h u v k := by
+  constructor
+  · intro r
+    induction r with
+    | refl => exact ⟨0, .refl _⟩
+    | tail _ a ih => obtain ⟨k, p⟩ := ih; exact ⟨k + 1, .tail p a⟩
+  · rintro ⟨k, p⟩
+    induction p with
+    | refl => exact .refl
+    | tail _ a ih => exact ih.tail a
+
+theorem IsDist.symm {h : Net} {u v : PyId} {k : Nat} (d : IsDist h u v k) : IsDist h v u k :=
+  ⟨d.1.symm, fun j p => d.2 j p.symm⟩
+
+theorem IsDist.unique {h : Net} {u v : PyId} {k k' : Nat} (d : IsDist h u v k) (d' : IsDist h u v k') : k = k' :=
+  Nat.le_antisymm (d.2 _ d'.1) (d'.2 _ d.1)
+
+theorem SPFinal.upper {h : Net} {src : PyId} {d : PyId → Option Nat} (f : SPFinal h src d) {v : PyId} {j : Nat}
+    (p : Walk h src v j) : ∃ k, k ≤ j ∧ d v = some k := by
+  induction p with
+  | refl => exact ⟨0, Nat.le_refl _, f.src0⟩
+  | tail _ a ih =>
+    obtain ⟨k, hk, hd⟩ := ih
+    obtain ⟨k', hd', hle⟩ := f.lipschitz _ _ k a hd
+    exact ⟨k', by omega, hd'⟩
+
+theorem SPFinal.lower {h : Net} {src : PyId} {d : PyId → Option Nat} (f : SPFinal h src d) :
+    ∀ (k : Nat) (v : PyId), d v = some k → Walk h src v k := by
+  intro k
+  induction k with
+  | zero => intro v hv; rw [f.zero v hv]; exact .refl _
+  | succ k ih =>
+    intro v hv
+    obtain ⟨p, a, hp⟩ := f.parent v k hv
+    exact .tail (ih p hp) a
+
+theorem SPFinal.isDist {h : Net} {src : PyId} {d : PyId → Option Nat} (f : SPFinal h src d) (v : PyId) (k : Nat) :
+    d v = some k ↔ IsDist h src v k := by
+  constructor
+  · intro hv
+    refine ⟨f.lower k v hv, fun j p => ?_⟩
+    obtain ⟨k', hle, hd⟩ := f.upper p
+    rw [hv] at hd; cases hd; exact hle
+  · rintro ⟨p, hmin⟩
+    obtain ⟨k', hle, hd⟩ := f.upper p
+    have := hmin k' (f.lower k' v hd)
+    have : k' = k := by omega
+    rw [← this]; exact hd
+
+theorem SPFinal.none_iff {h : Net} {src : PyId} {d : PyId → Option Nat} (f : SPFinal h src d) (v : PyId) :
+    d v = none ↔ ¬ Reach h src v := by
+  rw [reach_iff_walk]
+  constructor
+  · rintro hn ⟨j, p⟩
+    obtain ⟨k, _, hd⟩ := f.upper p
+    rw [hn] at hd; cases hd
+  · intro hnr
+    cases hd : d v with
+    | none => rfl
+    | some k => exact absurd ⟨k, f.lower k v hd⟩ hnr
+
 end Xgi.C14
